@@ -147,7 +147,8 @@ class Circuit(RoutingObject):
         Adds a hop to the circuits hop collection.
         """
         self._hops.append(hop)
-        if self.state == CIRCUIT_STATE_READY:
+        if self.state == CIRCUIT_STATE_READY and not self.ready.done():
+            # (the future may have been cancelled by whoever was waiting for it, e.g., asyncio.wait_for on a timeout)
             self.ready.set_result(self)
         self.dirty = True
 
